@@ -649,6 +649,7 @@ func runC10(c *an.Ctx) {
 
 	// ---------------- O5: offset arithmetic (round 2)
 	c10Arithmetic(c, fns, fWrBuf, fStart, fNode, roles)
+	c10Round11(c, fns, roles)
 
 	// deterministic note about what family members were seen
 	var fam []string
@@ -1308,4 +1309,190 @@ func c10CallsTo(fn, target *ssa.Function) []ssa.CallInstruction {
 		}
 	}
 	return out
+}
+
+// c10Round11: obligations added after mutation probing (round 11).
+func c10Round11(c *an.Ctx, fns []*ssa.Function, roles *c10Roles) {
+	fWrBuf, fStart, fCur, fRead := roles.wrBuf, roles.writeStart, roles.curWrOff, roles.read
+	loadOf := func(v ssa.Value, f *types.Var) bool {
+		u, ok := an.XBStripConv(v).(*ssa.UnOp)
+		if !ok || u.Op != token.MUL {
+			return false
+		}
+		g, _ := an.FieldOf(u.X)
+		return g == f
+	}
+	isBufLen := func(v ssa.Value) bool {
+		call, ok := an.IsCallTo(an.XBStripConv(v), an.M("bytes", "Buffer", "Len"))
+		return ok && loadOf(an.Recv(call), fWrBuf)
+	}
+	nRead, nPos, nExt, nReset, nAt := 0, 0, 0, 0, 0
+	for _, fn := range fns {
+		name := an.FuncName(fn)
+		// (A) a count read through the cached reader advances the current offset
+		for _, call := range an.AllCalls(fn) {
+			cc := call.Common()
+			if !cc.IsInvoke() || !loadOf(cc.Value, fRead) {
+				continue
+			}
+			sig := cc.Signature()
+			if sig.Results().Len() != 2 || !c06IsInt(sig.Results().At(0).Type()) || !an.IsErrorType(sig.Results().At(1).Type()) {
+				continue
+			}
+			if cc.Method.Name() == "Seek" {
+				continue
+			}
+			nRead++
+			ns := an.Result(call, 0)
+			var follow []ssa.Instruction
+			for _, st := range an.FieldStores(fn, fCur) {
+				b, ok := st.Val.(*ssa.BinOp)
+				if !ok || b.Op != token.ADD {
+					continue
+				}
+				x, y := an.XBStripConv(b.X), an.XBStripConv(b.Y)
+				for _, n := range ns {
+					if (loadOf(x, fCur) && y == n) || (loadOf(y, fCur) && x == n) {
+						follow = append(follow, st)
+					}
+				}
+			}
+			okF, _ := an.MustFollow(fn, call, follow)
+			c.Check(len(follow) > 0 && okF, "O2", "R-PAIR", name, "read-count=>curWrOff+=n", call.Pos(),
+				"bytes handed out by the cached reader advance the current offset", "a read through the cached reader does not advance the current offset by the count read: the next Write/Read happens at the old position although the reader moved on")
+		}
+		// (B) a reader that is cached is positioned at the current offset
+		if sts := an.FieldStores(fn, fRead); len(sts) > 0 {
+			for _, st := range sts {
+				if an.IsNilConst(st.Val) {
+					continue
+				}
+				al := an.Aliases(st.Val)
+				for _, call := range an.AllCalls(fn) {
+					cc := call.Common()
+					if !cc.IsInvoke() || cc.Method.Name() != "Seek" || len(cc.Args) != 2 || !al[cc.Value] {
+						continue
+					}
+					nPos++
+					k, isK := an.XBInt64(cc.Args[1])
+					c.Check(isK && k == 0 && loadOf(cc.Args[0], fCur), "O4", "R-FLOW", name, "cached-reader-positioned-at-curWrOff", call.Pos(),
+						"the reader that gets cached is positioned at the current offset", "the reader that gets cached is positioned with something other than Seek(current offset, io.SeekStart): reads return bytes from the wrong place")
+				}
+			}
+		}
+		// (C) the extent of the buffered bytes is write start + buffer length
+		an.Instrs(fn, func(in ssa.Instruction) {
+			b, ok := in.(*ssa.BinOp)
+			if !ok || b.Op != token.ADD {
+				return
+			}
+			var other ssa.Value
+			if isBufLen(b.X) {
+				other = b.Y
+			} else if isBufLen(b.Y) {
+				other = b.X
+			} else {
+				return
+			}
+			if !loadOf(other, fStart) && !loadOf(other, fCur) {
+				return
+			}
+			nExt++
+			c.Check(loadOf(other, fStart), "O2", "R-WHO", name, "buffer-extent=writeStart+Len", b.Pos(),
+				"the end of the buffered bytes is computed from the write start", "the end of the buffered bytes is computed as current offset + buffer length; the buffer begins at the write start (the current offset already includes the buffered bytes): sizes are reported too large")
+		})
+		// (D) the buffer is discarded only by a write that covers it from its start
+		for _, call := range an.Calls(fn, an.M("bytes", "Buffer", "Reset")) {
+			if !loadOf(an.Recv(call), fWrBuf) {
+				continue
+			}
+			nReset++
+			covers := an.XBEdgesWhere(fn, func(r an.XBRel) bool {
+				isLen := func(v ssa.Value) bool {
+					cl, ok := an.XBStripConv(v).(*ssa.Call)
+					if !ok || an.Callee(cl).Builtin != "len" {
+						return false
+					}
+					_, isPar := cl.Call.Args[0].(*ssa.Parameter)
+					return isPar
+				}
+				if isLen(r.X) && isBufLen(r.Y) {
+					return r.Op == token.GEQ || r.Op == token.GTR || r.Op == token.EQL
+				}
+				if isLen(r.Y) && isBufLen(r.X) {
+					return r.Op == token.LEQ || r.Op == token.LSS || r.Op == token.EQL
+				}
+				if k, isK := an.XBInt64(r.Y); isK && k == 0 && isBufLen(r.X) {
+					return r.Op == token.EQL
+				}
+				return false
+			})
+			atStart := an.XBEdgesWhere(fn, func(r an.XBRel) bool {
+				if r.Op != token.EQL {
+					return false
+				}
+				_, px := an.XBStripConv(r.X).(*ssa.Parameter)
+				_, py := an.XBStripConv(r.Y).(*ssa.Parameter)
+				return (px && loadOf(r.Y, fStart)) || (py && loadOf(r.X, fStart))
+			})
+			c.Check(len(covers) > 0 && an.GuardedBy(fn, nil, call, covers), "O2", "R-DOM", name, "wrBuf.Reset<=write-covers-buffer", call.Pos(),
+				"buffered bytes are discarded only where the incoming write is at least as long as the buffer", "the write buffer is reset where the incoming write was not tested to be at least as long as the buffered bytes: the tail of an earlier write is lost")
+			c.Check(len(atStart) > 0 && an.GuardedBy(fn, nil, call, atStart), "O2", "R-DOM", name, "wrBuf.Reset<=offset==writeStart", call.Pos(),
+				"buffered bytes are discarded only by a write that begins at the write start", "the write buffer is reset where the write offset was not tested equal to the write start: buffered bytes before/after the new write are lost")
+		}
+		// (E) a positional write appends to the buffer without repositioning only where its offset is the current offset
+		for _, par := range fn.Params {
+			if b, ok := par.Type().Underlying().(*types.Basic); !ok || b.Kind() != types.Int64 {
+				continue
+			}
+			blocked := map[ssa.Instruction]bool{}
+			abs := false
+			for _, st := range an.FieldStores(fn, fCur) {
+				if an.XBStripConv(st.Val) == ssa.Value(par) {
+					blocked[st] = true
+					abs = true
+				}
+			}
+			if !abs {
+				continue
+			}
+			eqStart := an.XBEdgesWhere(fn, func(r an.XBRel) bool {
+				return r.Op == token.EQL && ((an.XBStripConv(r.X) == ssa.Value(par) && loadOf(r.Y, fStart)) || (an.XBStripConv(r.Y) == ssa.Value(par) && loadOf(r.X, fStart)))
+			})
+			for _, st := range an.FieldStores(fn, fCur) {
+				if loadOf(st.Val, fStart) && len(eqStart) > 0 && an.GuardedBy(fn, nil, st, eqStart) {
+					blocked[st] = true
+				}
+			}
+			eqCur := an.XBEdgesWhere(fn, func(r an.XBRel) bool {
+				return r.Op == token.EQL && ((an.XBStripConv(r.X) == ssa.Value(par) && loadOf(r.Y, fCur)) || (an.XBStripConv(r.Y) == ssa.Value(par) && loadOf(r.X, fCur)))
+			})
+			for _, call := range an.AllCalls(fn) {
+				t := an.Callee(call).Static
+				if t == nil || t == fn {
+					continue
+				}
+				writes := false
+				for _, w := range an.Calls(t, an.M("bytes", "Buffer", "Write")) {
+					if loadOf(an.Recv(w), fWrBuf) {
+						writes = true
+					}
+				}
+				if !writes {
+					continue
+				}
+				nAt++
+				c.Check(!an.Reaches(fn, nil, call, eqCur, blocked), "O2", "R-CMP", name, "append-to-buffer<=offset==curWrOff-or-repositioned", call.Pos(),
+					"a positional write reaches the buffered write only after repositioning or where its offset equals the current offset",
+					"a positional write can reach the buffered write without repositioning on a path where its offset was not tested equal to the current offset: the bytes are written at the wrong position")
+			}
+		}
+	}
+	c.Min("O2 reads through the cached reader", nRead, 1)
+	c.Min("O4 positioning of the reader that gets cached", nPos, 1)
+	c.Min("O2 buffered-extent computations", nExt, 1)
+	c.Min("O2 resets of the write buffer", nReset, 1)
+	// (E) is anchored on one shape (the repositioning store and the buffered write in the same function); when a
+	// refactor moves the store into a helper the obligation does not apply: no vacuity minimum for it.
+	c.Note("round-11: positional writes analysed: %d", nAt)
 }
